@@ -233,7 +233,7 @@ func determinismProfile() Profile {
 // log replication, storage acknowledgements, application and snapshots; their
 // checks add a batch of E2 (followersim) runs, which are about 15 times
 // cheaper than whole-group runs.
-var followerProps = map[string]float64{"C01": 1.5, "C03": 2, "C05": 1.5, "C06": 1, "C07": 1.5, "C08": 1.5, "C09": 1.5, "C14": 1.5, "C15": 2, "C18": 2, "C19": 0.5}
+var followerProps = map[string]float64{"C10": 1.5, "C01": 1.5, "C03": 2, "C05": 1.5, "C06": 1, "C07": 1.5, "C08": 1.5, "C09": 1.5, "C14": 1.5, "C15": 2, "C18": 2, "C19": 0.5}
 
 // storeProps are the properties whose subject includes the in-memory storage
 // on its own (C18) or a panic inside it under contract-following use (C14);
